@@ -2,6 +2,7 @@ package main
 
 import (
 	"bytes"
+	"encoding/binary"
 	"errors"
 	"fmt"
 	"io"
@@ -238,6 +239,13 @@ func c14Roundtrip(c *vlib.Ctx) {
 			c.End()
 			continue
 		}
+		if f.Kind == capgen.Ng {
+			// independent structural check: the blocks tile the file and every block ends with its own length again
+			if msg := c14NgStructure(f.Bytes); msg != "" {
+				c.Violation("block-structure:pcapng", "the written file is not a well-formed sequence of pcapng blocks: "+msg, c14Detail(f, ""))
+			}
+			c.Count("pcapng_files_structure_checked", 1)
+		}
 		for api := 0; api < 3; api++ {
 			if f.Kind != capgen.Ng && api == apiOpts {
 				continue
@@ -369,4 +377,23 @@ func c14Truncate(c *vlib.Ctx) {
 		}
 		c.End()
 	}
+}
+
+// c14NgStructure walks a little-endian pcapng file block by block.
+func c14NgStructure(b []byte) string {
+	off := 0
+	for off < len(b) {
+		if off+12 > len(b) {
+			return fmt.Sprintf("%d stray bytes at offset %d", len(b)-off, off)
+		}
+		bl := int(binary.LittleEndian.Uint32(b[off+4:]))
+		if bl < 12 || bl%4 != 0 || off+bl > len(b) {
+			return fmt.Sprintf("block at offset %d announces total length %d (file has %d bytes left)", off, bl, len(b)-off)
+		}
+		if tr := int(binary.LittleEndian.Uint32(b[off+bl-4:])); tr != bl {
+			return fmt.Sprintf("block at offset %d: total length is %d in the block header but %d in the block trailer", off, bl, tr)
+		}
+		off += bl
+	}
+	return ""
 }
